@@ -1430,8 +1430,37 @@ pub fn gen_history(seed: u64, sw: &Swarm) -> Vec<Event> {
             issued.push(op.clone());
             ev.push(Event::Exec {
                 t,
-                op,
+                op: op.clone(),
             });
+            // a long decimal record is, one time in four, followed at once — same worker, same line buffer,
+            // same length, same head and tail — by a record that differs from it in one middle digit
+            if let Op::PFloat {
+                ty,
+                text,
+                ..
+            } = &op
+            {
+                if text.len() >= 24 && r.chance(1, 4) {
+                    let lo = text.len() / 3;
+                    let hi = text.len() - text.len() / 3;
+                    let cands: Vec<usize> = (lo..hi).filter(|&i| text[i].is_ascii_digit()).collect();
+                    if !cands.is_empty() {
+                        let i = *r.pick(&cands);
+                        let mut t2 = text.clone();
+                        t2[i] = b'0' + ((t2[i] - b'0') + 1 + r.below(8) as u8) % 10;
+                        let op2 = Op::PFloat {
+                            ty: *ty,
+                            text: t2,
+                            expect: None,
+                        };
+                        issued.push(op2.clone());
+                        ev.push(Event::Exec {
+                            t,
+                            op: op2,
+                        });
+                    }
+                }
+            }
         }
     }
     ev
